@@ -337,6 +337,7 @@ def enumerate_cases(tier, seed):
     cases += s3.omit_cases("AMBER")
     cases += s3.water_cases("AMBER", dists=(2.8,))
     cases += s3.omit_backbone_cases("AMBER")
+    cases += s3.omit_pair_cases("AMBER", all_pairs=(tier != "quick"))
     cases += s3.omit_h_cases("PARSE")
     cases += s3.neutral_cases()
     cases += s3.multi_clash_cases("AMBER", all_pairs=(tier != "quick"))
